@@ -241,6 +241,7 @@ PROPS = {
     "C17": {
         "lean_modules": ["Cachelito.Props.C17", "Cachelito.Props.C17s"],
         "streams": [sched_stream(nontrivial=["nested-acquisition"]), static_stream(),
+                    macro_stream(nontrivial=["c20-suspended"], what="L2 histories with async calls SUSPENDED at their await while other calls, invalidations and statistics queries of the same caches run to completion on the same thread (manual polling): every operation must return - a guard (queue mutex, DashMap shard) kept alive by a suspended future blocks them; a hung episode is a violation with the episode as replay"),
                     core_stream(nontrivial=["eviction", "expiry"], quick=600, thorough=12000,
                                 what="L1 engine histories with injected orphan queue slots (the states concurrent invalidations leave behind) under a watchdog: every operation must RETURN - an eviction loop that stops making progress while it holds the queue mutex blocks every other caller for ever")],
         "monitors": ["C17"],
